@@ -659,15 +659,21 @@ static int resolve(sim_inst *I, const plan_op *po, sim_xop *x, int in_action)
 	case SOP_LESS:
 		if (!in_action || I->is_eof || I->did_less || I->did_textop || I->did_bufop)
 			return 0;
+		/* %array: yyless() after yymore() in the same action cancels the
+		 * yymore() (known finding K-more-less, probed separately) */
+		if (I->did_more && vt->text_is_array)
+			return 0;
 		x->a = I->more_prefix + lmod(po->a, I->cur_len - I->more_prefix + 1);
 		return 1;
 	case SOP_UNPUT:
-		if (!in_action || I->is_eof || I->did_bufop)
+		/* yymore() together with yyunput()/yyinput() in one action is not a
+		 * documented combination: never generated */
+		if (!in_action || I->is_eof || I->did_bufop || I->did_more)
 			return 0;
 		x->a = po->a & 0xff;
 		return 1;
 	case SOP_INPUT:
-		if (!in_action || I->is_eof || I->did_bufop)
+		if (!in_action || I->is_eof || I->did_bufop || I->did_more)
 			return 0;
 		return 1;
 	case SOP_MORE:
@@ -841,7 +847,7 @@ void sim_enter(int rule, int is_eof, const char *text, int leng, int start,
 	if (I->more_prefix > leng)
 		I->more_prefix = leng;
 	I->prev_more = 0;
-	I->did_textop = I->did_less = I->did_bufop = I->n_ops = 0;
+	I->did_textop = I->did_less = I->did_bufop = I->did_more = I->n_ops = 0;
 	I->provided_input = 0;
 	while (X->act_pos < X->acts.n && X->acts.v[X->act_pos].ord < I->act_ord)
 		X->act_pos++;
@@ -872,7 +878,7 @@ int sim_next_op(sim_xop *x)
 		switch (x->code) {
 		case SOP_LESS: I->did_less = 1; I->cur_len = (int) x->a; break;
 		case SOP_UNPUT: case SOP_INPUT: I->did_textop = 1; break;
-		case SOP_MORE: I->prev_more = 1; break;
+		case SOP_MORE: I->prev_more = 1; I->did_more = 1; break;
 		case SOP_SWITCH: case SOP_PUSH_BUF: case SOP_PUSHNEW: case SOP_SWITCHNEW:
 		case SOP_POP_BUF: case SOP_SCAN_BYTES: case SOP_SCAN_STRING: case SOP_SCAN_BUFFER:
 		case SOP_NEWFILE: case SOP_RESTART: case SOP_FLUSH:
